@@ -305,6 +305,11 @@ func runFree(in sx.Tree) sx.Tree {
 			stalled = true
 		}
 	}
+	if in.Len() >= 6 {
+		for _, k := range in.At(5).Kids {
+			r.slow[k.Int()] = true
+		}
+	}
 	done := make(chan struct{})
 	go func() {
 		ex.Execute()
@@ -373,7 +378,7 @@ func runFree(in sx.Tree) sx.Tree {
 	ks := []sx.Tree{}
 	for _, c := range tab {
 		recv, proc, filt, fail, disc := counters(c.Config.ID)
-		ks = append(ks, sx.Ints(recv, proc, filt, fail, disc))
+		ks = append(ks, sx.Ints(recv, proc, filt, fail, disc, bufferFull(c.Config.ID)))
 	}
 	return sx.T(netd, sx.T(tr...), sx.T(ks...), sx.T(sx.L(stallOK), sx.L(cut), sx.T(stallInfo...)))
 }
